@@ -8,6 +8,7 @@ for the bounded run-time checks.
 import asyncio
 import inspect
 import itertools
+import os
 import json
 import time
 import traceback
@@ -261,6 +262,7 @@ def make_interp(p):
     it.contracts = CONTRACTS
     it.modular = set(p.modular)
     it.unroll_limit = p.unroll_limit
+    it.sym_unroll_limit = getattr(p.cls, 'sym_unroll_limit', it.sym_unroll_limit)
     _install_spec_models(it)
     _install_rec_specs(it)
     from . import regex, stdmodels, segs, aio
@@ -282,6 +284,17 @@ def generate(p):
     interp.current = p.full
     names = list(p.inputs)
     variant_lists = [p.inputs[n].variants() for n in names]
+    # a generation that runs away (an engine regression once made one proof loop for 15 minutes) ends as 'outside reach'
+    # (undecided, exit 2) instead of hanging the check
+    import signal
+    budget = int(os.environ.get('VERIF_GEN_TIMEOUT', getattr(p.cls, 'gen_timeout', 600)))
+
+    def _alarm(signum, frame):
+        raise Unsupported(f"symbolic execution of the proof exceeded {budget} s")
+    use_alarm = hasattr(signal, 'SIGALRM') and __import__('threading').current_thread() is __import__('threading').main_thread()
+    if use_alarm:
+        old_handler = signal.signal(signal.SIGALRM, _alarm)
+        signal.setitimer(signal.ITIMER_REAL, budget, 5)       # repeats: a handler swallowed by a fallback `except` fires again
     try:
         for combo in itertools.product(*variant_lists):
             st = State()
@@ -334,6 +347,10 @@ def generate(p):
         run.error = f"{e}{loc}"
     except RecursionError:
         run.error = "python recursion limit in the symbolic executor"
+    finally:
+        if use_alarm:
+            signal.setitimer(signal.ITIMER_REAL, 0)
+            signal.signal(signal.SIGALRM, old_handler)
     run.obligations = interp.obligations
     run.used = dict(SOURCES.used)
     run.builtins_used = set(interp.builtins_used)
